@@ -71,6 +71,14 @@ def _worker(wid, spaces, counter, nblocks_total, order, deadline, beacon_path, c
     done_blocks = 0
     per_space = {}
     last_flush = time.time()
+    mon_err = None
+    try:
+        from . import lib as _lib
+        if getattr(_lib, "S", None) is not None:
+            import ctypes as _ct
+            mon_err = _ct.c_int.in_dll(_lib.S, "v_alloc_errors")
+    except Exception:
+        mon_err = None
     bf = open(beacon_path, "r+b")
     bm = mmap.mmap(bf.fileno(), BEACON_SZ * NWORK)
     off = wid * BEACON_SZ
@@ -115,6 +123,11 @@ def _worker(wid, spaces, counter, nblocks_total, order, deadline, beacon_path, c
                 except Exception as e:        # harness error: never silently dropped
                     R.fail("harness-exception", traceback.format_exc()[-500:])
                     sg = None
+                if mon_err is not None and mon_err.value:
+                    # global monitor (every property): the recording allocator saw a contract violation or damaged guard bytes
+                    # that the property module itself did not consume
+                    R.fail("memory-monitor", "allocator contract / guard bytes: %s" % _lib.alloc_msg())
+                    _lib.S.v_reset_errors()
                 if sg is not None:
                     sigs.add((si, sg))
                 if first:
@@ -123,6 +136,9 @@ def _worker(wid, spaces, counter, nblocks_total, order, deadline, beacon_path, c
                         R.samples.append({"space": sp.name, "block": crepr(blk)[:200], "case": crepr(case)[:400]})
             if case is not None and len(R.samples) < 40 and k > 1:
                 R.samples.append({"space": sp.name, "block": crepr(blk)[:200], "case": crepr(case)[:400]})
+            if mon_err is not None and case is not None and _lib.S.v_check_guards():
+                R.fail("memory-monitor", "after this block (last case shown): %s" % _lib.alloc_msg())
+                _lib.S.v_reset_errors()
             ps = per_space.setdefault(sp.name, [0, 0])
             ps[0] += R.n - n0
             ps[1] += 1
